@@ -174,7 +174,12 @@ func (m *recMod) Execute(targets map[string]pgs.File, pkgs map[string]pgs.Packag
 // viaModuleBase hands the artifacts over the way module authors usually do: through the Add* /
 // Overwrite* helpers of an embedded pgs.ModuleBase, returning its Artifacts().
 func viaModuleBase(arts []pgs.Artifact) []pgs.Artifact {
+	// the module sits in a context whose output path is not "." and inside a pushed directory:
+	// generator artifact names are relative to protoc's output, whatever the context says
 	b := &pgs.ModuleBase{}
+	b.InitContext(pgs.Context(pgs.InitMockDebugger(), pgs.Parameters{}, "gen"))
+	b.PushDir("sub")
+	b.Push("helper")
 	for _, a := range arts {
 		switch x := a.(type) {
 		case pgs.GeneratorFile:
